@@ -344,6 +344,26 @@ func evalCsrrt(args []string) string {
 	if r.chance(1, 3) {
 		t.IPAddresses = []net.IP{net.ParseIP("10.9.8.7").To4()}
 	}
+	// requested extensions, through both mechanisms the template offers (and both at once): ExtraExtensions, and
+	// the (older) Attributes field holding an extensionRequest attribute
+	want := map[string][]byte{}
+	if r.chance(1, 2) {
+		for i, n := 0, 1+r.intn(2); i < n; i++ {
+			e := pkix.Extension{Id: asn1.ObjectIdentifier{1, 2, 3, 5, 10 + i}, Value: append([]byte{0x04, 0x03}, r.bytes(3)...)}
+			t.ExtraExtensions = append(t.ExtraExtensions, e)
+			want[e.Id.String()] = e.Value
+		}
+	}
+	if r.chance(1, 2) {
+		var atvs []pkix.AttributeTypeAndValue
+		for i, n := 0, 1+r.intn(2); i < n; i++ {
+			id := asn1.ObjectIdentifier{1, 2, 3, 4, 20 + i}
+			v := append([]byte{0x0c, 0x02}, byte('a'+r.intn(26)), byte('a'+r.intn(26)))
+			atvs = append(atvs, pkix.AttributeTypeAndValue{Type: id, Value: v})
+			want[id.String()] = v
+		}
+		t.Attributes = []pkix.AttributeTypeAndValueSET{{Type: asn1.ObjectIdentifier{1, 2, 840, 113549, 1, 9, 14}, Value: [][]pkix.AttributeTypeAndValue{atvs}}}
+	}
 	der, err := x509.CreateCertificateRequest(rand.Reader, t, k)
 	if err != nil {
 		return "reject"
@@ -351,6 +371,17 @@ func evalCsrrt(args []string) string {
 	c, err := x509.ParseCertificateRequest(der)
 	if err != nil {
 		return "ORACLE-FAIL:parse-back"
+	}
+	for id, v := range want {
+		found := false
+		for _, e := range c.Extensions {
+			if e.Id.String() == id && bytes.Equal(e.Value, v) {
+				found = true
+			}
+		}
+		if !found {
+			return "ORACLE-FAIL:requested-extension-lost:" + id
+		}
 	}
 	if c.Subject.CommonName != t.Subject.CommonName || !reflect.DeepEqual(append([]string{}, t.DNSNames...), append([]string{}, c.DNSNames...)) ||
 		!reflect.DeepEqual(append([]string{}, t.EmailAddresses...), append([]string{}, c.EmailAddresses...)) || !sameIPs(t.IPAddresses, c.IPAddresses) {
